@@ -50,6 +50,10 @@ PROPS = {
         units=[('reader', r'(C12|^read$|^parse_header|^parse_start|^parse_metadata|from__partial_game)'), ('event', r'(C12|parse_event__total|frame_open)')],
         kani=[],
     ),
+    'C10': dict(
+        units=[('reader', r'(C10|^read$|^parse_start)')],
+        kani=[],
+    ),
     'C08': dict(
         units=[('event', r'(parse_event__other|parse_event__splitter|C08)'), ('codec_mut', r'(read_push)')],
         kani=[],
